@@ -18,11 +18,12 @@ namespace vf {
 using ref::Bytes;
 // exact-size heap copy so ASan sees the true bounds of an input
 struct HeapBuf {
-    uint8_t *p; size_t n;
-    explicit HeapBuf(size_t len) : p((uint8_t *)malloc(len ? len : 1)), n(len) { if (!len) { free(p); p = (uint8_t *)malloc(0); } }
+    uint8_t *base; uint8_t *p; size_t n;
+    // zero-length buffers point at the end of a small block so that even p[0] is out of bounds for ASan
+    explicit HeapBuf(size_t len) : base((uint8_t *)malloc(len ? len : 8)), p(len ? base : base + 8), n(len) {}
     HeapBuf(const uint8_t *d, size_t len) : HeapBuf(len) { if (len) memcpy(p, d, len); }
     explicit HeapBuf(const Bytes &b) : HeapBuf(b.data(), b.size()) {}
-    ~HeapBuf() { free(p); }
+    ~HeapBuf() { free(base); }
     HeapBuf(const HeapBuf &) = delete; HeapBuf &operator=(const HeapBuf &) = delete;
 };
 struct Ctx {
